@@ -23,7 +23,7 @@ def event(app, name, ident, state, expected, t):
     return {'identifier': ident, 'nick_identifier': ident, 'group': app, 'name': name, 'state': state, 'now': int(t),
             'now_monotonic': float(t), 'pid': 0, 'expected': expected, 'spawnerr': '', 'extra_args': '', 'disabled': False}
 
-GEN = int(os.environ.get('VERIF_GEN', '3'))
+GEN = int(os.environ.get('VERIF_GEN', '4'))
             # generation of the case generator: 0 = per-application requests only, every application ALL_INSTANCES (what the corpus
             # files without a "gen" key were recorded with); 1 = + whole-cluster requests (startapps / stopapps);
             # 2 = + distribution rules (SINGLE_INSTANCE / SINGLE_NODE) and application-level identifiers rules;
@@ -294,6 +294,7 @@ class Case:
                 inflight = [(c.process.namespec, c.identifier) for j in list(s.starter.current_jobs.values()) + list(s.stopper.current_jobs.values()) for c in j.current_jobs]
                 if inflight and rnd.random() < 0.85:
                     ns, ident = rnd.choice(inflight); p = self.pidx[ns]; i = self.ids.index(ident)
+                    if ident not in s.context.get_process(ns).info_map: continue       # the program has been removed from that Supervisor
                     cur = s.context.get_process(ns).info_map[ident]['state']
                     nxt = {0: [10, 10, 10, 200], 100: [10, 10, 200], 200: [10, 10], 10: [20, 20, 20, 30, 100, 40], 30: [10, 200, 10], 20: [100, 40, 40, 40, 20], 40: [0, 0, 40]}.get(cur, [0])
                     st = rnd.choice(nxt)
@@ -374,6 +375,24 @@ class Case:
             s.context.instances[self.ids[i]]._state = SupvisorsInstanceStates.RUNNING
             self.checked[i] = False; self.running[i] = True
             self.record(f"inst {i} 2")
+        elif self.gen >= 4 and self.rnd2.random() < 0.45:
+            # generation 4: a program is removed from the Supervisor of an instance where it is stopped (update_numprocs,
+            # removeProcessGroup) - possibly while a request for it is pending there; it stays known somewhere else
+            keys = [(i, p) for (i, p) in sorted(self.dis)
+                    if len(s.context.get_process(f"{self.pinfo[p]['aname']}:{self.pinfo[p]['name']}").info_map) >= 2
+                    and s.context.get_process(f"{self.pinfo[p]['aname']}:{self.pinfo[p]['name']}").info_map[self.ids[i]]['state'] in (0, 100, 200)]
+            if not keys: return
+            pend = [(self.ids.index(c.identifier), self.pidx[c.process.namespec]) for j in list(s.starter.current_jobs.values()) + list(s.stopper.current_jobs.values())
+                    for c in j.current_jobs]
+            pend = [k for k in pend if k in keys]
+            i, p = self.rnd2.choice(pend) if pend and self.rnd2.random() < 0.7 else self.rnd2.choice(keys)
+            cfg = self.pinfo[p]; ident = self.ids[i]
+            s.context.on_process_removed_event(s.context.instances[ident], {'group': cfg['aname'], 'name': cfg['name']})
+            accepted = self.running[i] or self.checked[i]
+            if accepted:
+                del self.dis[(i, p)]
+                if i in cfg['known']: cfg['known'].remove(i)
+            self.record(f"remove {i} {p}")
         else:
             keys = sorted(self.dis)
             if not keys: return
